@@ -23,6 +23,9 @@ ke  == <<>>
 NumCanonDef == (<<49, 101, 50>> :> <<49, 48, 48>>) @@
                (<<49, 56, 52, 52, 54, 55, 52, 52, 48, 55, 51, 55, 48, 57, 53, 53, 49, 54, 49, 54>> :>
                 <<49, 56, 52, 52, 54, 55, 52, 52, 48, 55, 51, 55, 48, 57, 53, 53, 50, 48, 48, 48>>) @@
+               (<<48, 46, 48>> :> <<48>>) @@
+               (<<45, 48, 46, 48>> :> <<45, 48>>) @@
+               (<<45, 48, 101, 48>> :> <<45, 48>>) @@
                \* floats whose ECMAScript form is a long run of digits and zeros (1e17 .. 1e21), and the switch to exponent form
                (<<49, 101, 49, 55>> :> <<49, 48, 48, 48, 48, 48, 48, 48, 48, 48, 48, 48, 48, 48, 48, 48, 48, 48>>) @@
                (<<45, 51, 69, 43, 49, 56>> :> <<45, 51, 48, 48, 48, 48, 48, 48, 48, 48, 48, 48, 48, 48, 48, 48, 48, 48, 48, 48>>) @@
@@ -124,6 +127,15 @@ bf10 == <<"num", <<49, 50, 51, 52, 53, 54, 55, 56, 57, 48, 49, 50, 51, 52, 53, 5
 bf11 == <<"num", <<45, 50, 48, 48, 48, 48, 48, 48, 48, 48, 48, 48, 48, 48, 48, 48, 48, 48, 48, 48, 48, 48>>>>
 BigFloats == {bf0, bf1, bf2, bf3, bf4, bf5, bf6, bf7, bf8, bf9, bf10, bf11}
 DocsBigFloats == {<<<<"a", <<x, y>>>>>> : x \in BigFloats, y \in {n, bf0}} \cup {<<<<"o", <<<<ka, x>>>>>>>> : x \in BigFloats}
+\* neighbours that compare equal, repeat, or differ only in sign (a marshaller must not reuse the previous number's text)
+z0 == <<"num", <<48, 46, 48>>>>
+z1 == <<"num", <<45, 48, 46, 48>>>>
+z2 == <<"num", <<45, 48, 101, 48>>>>
+DocsNeighbours == {<<<<"a", <<z0, z1>>>>>>, <<<<"a", <<z1, z0>>>>>>, <<<<"a", <<z0, z0, z1, z2>>>>>>, <<<<"a", <<z1, i1, z0>>>>>>,
+                   <<<<"a", <<f25, f25>>>>>>, <<<<"o", <<<<ka, z1>>, <<kb, z0>>>>>>>>, <<<<"a", <<z0>>>>, <<"a", <<z1>>>>>>}
+DocsFloatTexts == DocsBigFloats \cup DocsNeighbours
+SetOpsNum == {<<"uint", <<55>>>>, <<"uint", <<49, 56, 52, 52, 54, 55, 52, 52, 48, 55, 51, 55, 48, 57, 53, 53, 49, 54, 49, 53>>>>,
+              <<"int", <<45, 55>>>>, <<"float", <<48, 46, 53>>>>}
 SetOpsNull == {<<"null", 0>>, <<"str", <<122>>>>}
 FilterKeysDef == {<<122>>}
 =============================================================================
